@@ -3047,7 +3047,8 @@ private:
             res = custom_lexer.match(opts, ps.current_sp, ps.current_it, ps.buffer_end, ps.error_stream);
         }
 
-        ps.current_term_idx = res.term_idx;
+        // a term recognized on an empty prefix is not a match: the input would never advance
+        ps.current_term_idx = res.len == 0 ? uninitialized16 : res.term_idx;
         ps.current_end_it = ps.current_it + res.len;
 
         if (ps.current_term_idx == uninitialized16)
